@@ -164,6 +164,35 @@ def nextRec (rest : Bytes) : Option (Rec × Nat) :=
     let pl := (rest.drop hd.length).take r.incl_len
     some (r.setPayload pl, hd.length + pl.length)
 
+/-! #### the bounded-piece read of `Pcap.next` (fix 0e0a76e), spelled out.
+    `nextRec` above models `_chunks = []; _todo = incl_len; while _todo > 0: …; b"".join(_chunks)` by its net effect,
+    one `take`.  `readLoop` is the loop itself, statement by statement, with `fopen.read(n)` = "the next `min n (bytes
+    left)` bytes, advance"; it also records the argument of every `read()` call.  `Lemmas/PcapChunk` proves that the
+    two agree (`nextRecChunked_eq`), so `next`, the driver and the C05 theorems keep using `nextRec`. -/
+
+/-- the `while _todo > 0:` loop.  State: the bytes at and after the file position, `_todo`, `b"".join(_chunks)` so far,
+    the sizes passed to `read()` so far.  Result: the joined chunks, the bytes left after the file position, the sizes. -/
+def readLoop (chunk : Nat) : Nat → Bytes → Nat → Bytes → List Nat → R (Bytes × Bytes × List Nat)
+  | 0, _, _, _, _ => .error .fuel
+  | fuel + 1, rest, todo, acc, asks =>
+    if todo > 0 then
+      let ask := min todo chunk
+      let c := rest.take ask                       -- _chunk = self.fopen.read(min(_todo, 1 << 20))
+      if c.isEmpty then .ok (acc, rest, asks ++ [ask])   -- if not _chunk: break
+      else readLoop chunk fuel (rest.drop c.length) (todo - c.length) (acc ++ c) (asks ++ [ask])
+    else .ok (acc, rest, asks)
+
+/-- `nextRec` with the read loop spelled out; second component: the sizes passed to `read()` for the record data.
+    Fuel: every iteration but the last consumes at least one byte of the file. -/
+def nextRecChunked (rest : Bytes) : R (Option (Rec × Nat) × List Nat) :=
+  let hd := rest.take RECORD_HEADER_SIZE
+  match Rec.unpack Rec.fresh hd with
+  | (_, .error _) => .ok (none, [])
+  | (r, .ok ()) =>
+    match readLoop READ_CHUNK ((rest.drop hd.length).length + 1) (rest.drop hd.length) r.incl_len [] [] with
+    | .error e => .error e
+    | .ok (pl, _, asks) => .ok (some (r.setPayload pl, hd.length + pl.length), asks)
+
 /-- `Pcap.next()` -/
 def next (fs : FS) : FS × R Rec :=
   match fs.h with
